@@ -35,7 +35,9 @@ type c13PM struct {
 	M uint64
 }
 
-var c13Configs = []c13PM{{0, 1}, {1, 2}, {7, 200}, {8, 256}, {19, 784931}, {20, 1 << 20}, {31, 1 << 31}, {32, 1 << 32}, {32, 1 << 40}, {19, 1 << 29}}
+var c13Configs = []c13PM{{0, 1}, {1, 2}, {7, 200}, {8, 256}, {19, 784931}, {20, 1 << 20}, {31, 1 << 31}, {32, 1 << 32}, {32, 1 << 40}, {19, 1 << 29},
+	// long unary runs: quotients up to several hundred (P tiny against M)
+	{0, 300}, {1, 1 << 10}}
 
 // c13Alphabet builds, for one (key, M, N), the item alphabet by a deterministic scan over counter
 // strings: three unrelated items, the empty string, the items with the smallest and largest reduced
@@ -224,7 +226,7 @@ func multisets(k, n int) [][]int { // all non-decreasing index lists of length n
 }
 
 func runC13(c *mc.Ctx) {
-	c.Rule("for 2 keys x 10 (P,M) configurations (incl. N*M >= 2^32 already for N = 1,2) and each set size N: an item alphabet built by a deterministic scan (unrelated items, empty string, min/max reduced value, a pair with equal reduced value, a pair with equal low 32 bits but different value); all multisets of size N <= 3 (4 thorough; N=4 over a 5-item sub-alphabet on quick) x all query lists of length <= 2 (3 thorough); every query through Match, MatchAny, ZipMatchAny, HashMatchAny against reference membership of reduced values; non-trivial = cases whose set or query contains one of the colliding pairs")
+	c.Rule("for 2 keys x 12 (P,M) configurations (incl. N*M >= 2^32 already for N = 1,2) and each set size N: an item alphabet built by a deterministic scan (unrelated items, empty string, min/max reduced value, a pair with equal reduced value, a pair with equal low 32 bits but different value); all multisets of size N <= 3 (4 thorough; N=4 over a 5-item sub-alphabet on quick) x all query lists of length <= 2 (3 thorough); every query through Match, MatchAny, ZipMatchAny, HashMatchAny against reference membership of reduced values; non-trivial = cases whose set or query contains one of the colliding pairs")
 	c.Assume("reference SipHash-2-4 and 128-bit multiply (math/bits.Mul64) correct (SipHash self-tested on the paper's vector)")
 	c13SelfTest()
 	scan := mc.Pick(c, 1<<19, 1<<21)
